@@ -578,7 +578,10 @@ def _case(task):
     d = os.path.join(scratch, 'w%d' % task['id'])
     try:
         main = D.write_case(d, files)
-        incdirs = [d] + ([base.incdir] if base is not None else [])
+        # the case's own directory under one of four spellings (canonical, `/.`, `/../name`, doubled slash): the outcome
+        # of the front end must not depend on how an inclusion directory is written
+        dsp = [d, d + '/.', os.path.join(d, '..', os.path.basename(d)), os.path.dirname(d) + '//' + os.path.basename(d)][task['id'] % 4]
+        incdirs = [dsp] + ([base.incdir] if base is not None else [])
         r = _api('from_file', main, incdirs)
         out['from_file'] = _slim(r)
         out['size'] = sum(len(v) for v in files.values())
